@@ -107,8 +107,11 @@ def adv_rules(prog, R):
                 adv = [g for g in verdict if g[0] != 'not-an-advance']
                 ok = bool(adv) and all(g[0] == 'both' and g[2] is not None and g[1] == g[2] for g in adv)
                 g0 = adv[0]
+                # the update of the record start is not visible (made through a destructured `&mut` or in a callee that is not
+                # followed): not judged; a visible update by a different amount is a violation
+                unseen = bool(adv) and all(g[0] != 'both' or g[2] is None for g in adv)
                 R.add('ADV-1', b, 'file-position-moves-with-record-start', ok, site(b, b.blocks[x].stmts[0].line if b.blocks[x].stmts else b.span['lo']),
-                      'Position.byte grows by %r, the record start in the buffer by %r' % (g0[1], g0[2]))
+                      'Position.byte grows by %r, the record start in the buffer by %r' % (g0[1], g0[2]), undecided=(not ok) and unseen)
     R.floor('ADV-1', 2)
 
 
@@ -191,7 +194,7 @@ def mark_rules(prog, R):
                     st.k == 'assign' and st.rv.k == 'bin' and st.rv.j['op'] in ('Eq', 'Ne') and any(o.const_int() == marker for o in st.rv.ops) for blk in b.blocks for st in blk.stmts)
                 R.add('MARK-1', b, '%s-iff-byte-differs-from-marker' % var, bool(errp) and not bad, site(b, b.span['lo']),
                       '%d error paths, %d success paths, marker 0x%02x: %s' % (len(errp), len(okp), marker, sorted(set(bad)) or 'consistent'),
-                      undecided=bool(bad) and not tests_here)
+                      undecided=(bool(bad) and not tests_here) or not errp)
     R.floor('MARK-1', 3)
 
 
@@ -286,9 +289,19 @@ def find_rules(prog, R):
                         else:
                             # the found offset is re-based by something that is not a plain capture of the slice start
                             verdicts.append((r - Aff.const(r.c), r.c, 'closure adds %r' % (r,)))
-                # (3) a loop over Memchr: item re-based inside the loop
+                # (3) a loop over Memchr: item re-based inside the loop (locals the loop does not change keep their entry value)
                 for h in loops:
-                    for p in ev.run(h, stops={h}, init=self_init()):
+                    assigned = set(st.place.local for x2 in loops[h] for st in b.blocks[x2].stmts if st.k == 'assign' and not st.place.proj) | set(
+                        b.blocks[x2].term.dest.local for x2 in loops[h] if b.blocks[x2].term.k == 'call' and b.blocks[x2].term.dest is not None and not b.blocks[x2].term.dest.proj)
+                    entry_env = {}
+                    for pe in ent:
+                        if pe.end == ('stop', h):
+                            entry_env = pe.env
+                    init_h = self_init()
+                    for l2, v2 in entry_env.items():
+                        if isinstance(l2, int) and l2 not in assigned and isinstance(v2, Aff):
+                            init_h.env[l2] = v2
+                    for p in ev.run(h, stops={h}, init=init_h):
                         for l, v in p.env.items():
                             if isinstance(l, int) and isinstance(v, Aff):
                                 items = [s2 for s2 in v.t if isinstance(s2, tuple) and s2[0] == 'f' and isinstance(s2[1], tuple) and s2[1][0] == 'call' and 'Iterator::next' in str(s2[1][1]) and v.t[s2] == 1]
